@@ -280,13 +280,26 @@ fn exec(op: &Op) -> String {
         }
         "summary.pkgsplit" => {
             let Some(s) = a(0) else { return "BAD-UTF8".into() };
-            let mut sum = Summary::new();
-            sum.set_pkgname(s);
-            let f = |o: Option<&str>| match o {
-                Some(x) => format!("some{}", hex(x.as_bytes())),
-                None => "none".to_string(),
-            };
-            format!("{}:{}", f(sum.pkgbase()), f(sum.pkgversion()))
+            // ONE Summary object lives across all ops of the process: every op is a further step
+            // of a long setter/getter history on it (set_pkgname replaces the name, so the answer
+            // must depend on the current name only); the accessors are also called before the
+            // setter, as a caller that looks at an entry and then updates it would
+            thread_local! {
+                static SUM: std::cell::RefCell<Summary> = std::cell::RefCell::new(Summary::new());
+            }
+            SUM.with(|cell| {
+                let mut sum = match cell.try_borrow_mut() {
+                    Ok(g) => g,
+                    Err(_) => return "BAD-STATE".to_string(),
+                };
+                let _ = (sum.pkgbase().map(str::len), sum.pkgversion().map(str::len));
+                sum.set_pkgname(s);
+                let f = |o: Option<&str>| match o {
+                    Some(x) => format!("some{}", hex(x.as_bytes())),
+                    None => "none".to_string(),
+                };
+                format!("{}:{}", f(sum.pkgbase()), f(sum.pkgversion()))
+            })
         }
         "pkgpath.new" => {
             let Some(s) = a(0) else { return "BAD-UTF8".into() };
